@@ -1227,6 +1227,22 @@ pub fn escape_respellings(s: &str) -> Vec<String> {
     v
 }
 
+/// Line endings re-spelled: LF <-> CRLF <-> CR (what a writer that normalises line endings folds together).
+pub fn line_ending_respellings(s: &str) -> Vec<String> {
+    let mut v = vec![];
+    if s.contains("\r\n") {
+        v.push(s.replace("\r\n", "\n"));
+        v.push(s.replace("\r\n", "\r"));
+    } else if s.contains('\n') {
+        v.push(s.replace('\n', "\r\n"));
+        v.push(s.replace('\n', "\r"));
+    } else if s.contains('\r') {
+        v.push(s.replace('\r', "\n"));
+        v.push(s.replace('\r', "\r\n"));
+    }
+    v
+}
+
 pub fn near_collisions(s: &str) -> Vec<String> {
     let mut v = vec![];
     // spellings a path normaliser would not tell apart
